@@ -33,6 +33,9 @@ def cases(seed, tier):
         out.append({'mode': 'invalid', 'solver': 'bisect' if r % 2 else 'chandrupatla',
                     'size': int(rng.choice([1, 5, 64])), 'seed': int(rng.integers(1 << 31))})
         out.append({'mode': 'scalar', 'solver': 'chandrupatla', 'size': 1, 'seed': int(rng.integers(1 << 31))})
+    for r in range(12 if tier == 'quick' else 150):
+        out.append({'mode': 'int-bracket', 'solver': 'bisect' if r % 2 else 'chandrupatla', 'size': int(rng.choice([1, 3, 40])),
+                    'seed': int(rng.integers(1 << 31))})
     for r in range(6 if tier == 'quick' else 60):
         out.append({'mode': 'kde', 'solver': 'bisect' if r % 2 else 'chandrupatla', 'size': 40,
                     'seed': int(rng.integers(1 << 31))})
@@ -208,6 +211,24 @@ def run_case(spec, ctx):
         return
     if spec['mode'] == 'kde':
         return _kde(spec, ctx, rng, where)
+    if spec['mode'] == 'int-bracket':
+        # brackets whose ends are whole numbers, passed as integer arrays (or lists of ints)
+        lanes = Lanes(rng, size, True)
+        lanes.xmin = np.floor(lanes.xmin) - 1
+        lanes.xmax = lanes.xmin + np.ceil(rng.uniform(1, 50, size))
+        lanes.root = lanes.xmin + rng.uniform(0.05, 0.95, size) * (lanes.xmax - lanes.xmin)
+        lanes.reset()
+        lo, hi = lanes.xmin.astype(np.int64), lanes.xmax.astype(np.int64)
+        ok, x = ctx.call(getattr(optimize, solver), lanes, lo, hi)
+        if not ok:
+            ctx.violation('root.call', 'C18:%s-int-bracket-%s' % (solver, exc_mech(x)), dict(exc_detail(x), **where))
+            return
+        x = np.asarray(x, dtype=float)
+        judge(ctx, solver, lanes, x, where)
+        ctx.check(lo.dtype == np.int64 and np.array_equal(lo, lanes.xmin) and np.array_equal(hi, lanes.xmax), 'root.int-bracket-untouched',
+                  'C18:%s-modifies-integer-bracket' % solver, where)
+        ctx.nontriv('int|%s|%d' % (solver, spec['seed']))
+        return
 
     lanes = Lanes(rng, size, spec['mixed'])
     x = solve(ctx, solver, lanes, where)
